@@ -792,6 +792,17 @@ func (e *Exec) elemsAt(arr *Cell, off, n int, idx *Term, what string) *Ptr {
 		return ptrTo(arr.elems[off+i], e.b)
 	}
 	e.boundsCheck(idx, n, what)
+	// elements that cannot be merged by ite (slices, pointers, interfaces, ...): case split on the index
+	if n > 0 {
+		c0 := arr.elems[off]
+		if _, scalar := c0.v.(*Term); !scalar && c0.elems == nil {
+			k := e.run.concretize(e, idx, what)
+			if k < 0 || k >= n {
+				e.goPanic("%s: index out of range [%d] with length %d", what, k, n)
+			}
+			return ptrTo(arr.elems[off+k], e.b)
+		}
+	}
 	if n > e.run.maxSymIndex {
 		e.throw("limit", "symbolic index into %d elements", n)
 	}
